@@ -1,0 +1,16 @@
+//go:build verif
+
+package watermark
+
+// VerifSync returns after every mark sent before the call has been processed
+// (verification builds only). It pushes a waiter for index 0 through the same
+// FIFO channel as Begin/Done; index 0 is always at or below DoneUntil, so the
+// consumer closes the waiter as soon as it dequeues it.
+func (w *WaterMark) VerifSync() {
+	waiter := make(chan struct{})
+	w.markC <- mark{
+		ts:     0,
+		waiter: waiter,
+	}
+	<-waiter
+}
